@@ -61,7 +61,12 @@ namespace glm
 		{
 			GLM_STATIC_ASSERT(std::numeric_limits<genType>::is_iec559 || GLM_CONFIG_UNRESTRICTED_FLOAT, "'round' only accept floating-point inputs");
 
-			return x < static_cast<genType>(0) ? static_cast<genType>(int(x - static_cast<genType>(0.5))) : static_cast<genType>(int(x + static_cast<genType>(0.5)));
+			// Nearest integer, ties away from zero, without going through int and without rounding x +/- 0.5:
+			// same results as std::round, including the sign of a zero result, infinities and NaN
+			genType const a = x < static_cast<genType>(0) ? -x : x;
+			genType const t = std::floor(a);
+			genType const r = (a - t >= static_cast<genType>(0.5)) ? t + static_cast<genType>(1) : t;
+			return x < static_cast<genType>(0) ? -r : (x == static_cast<genType>(0) ? x : r);
 		}
 #	endif
 
